@@ -467,7 +467,7 @@ def run(ck: common.Check):
         ck.broken_obligation("extraction-build:" + ENGINE, "no model driver: correspondence not run")
 
     # 3. search against the real implementation (+ instruction-level correspondence)
-    variants = ["A", "B", "L"] if ck.thorough else ["A", "B", "L"]
+    variants = ["A", "B", "L"] if ck.thorough else ["A", "B", "l"]   # "l": literal sizes only where nothing else can run
     units, not_runnable = [], []
     if ext_ok and driver.exists():
         t0 = _t.time()
